@@ -312,7 +312,7 @@ func runOutputs(c *Ctx, prop string) {
 	})
 	c.AddCount("transition_sequences", total)
 	// (a) random calls, all routes.
-	n := c.pick(300000, 20000000)
+	n := c.pick(1000000, 20000000)
 	c.ParallelFor(n, func(w *Worker, i int64) {
 		r := newRng(c.Seed, 0xc01, uint64(i))
 		call := randCall(r, o)
@@ -337,7 +337,7 @@ func runOutputs(c *Ctx, prop string) {
 		}
 	})
 	// (c) SafeWriter histories.
-	nh := c.pick(100000, 5000000)
+	nh := c.pick(300000, 5000000)
 	c.ParallelFor(nh, func(w *Worker, i int64) {
 		r := newRng(c.Seed, 0xc01c, uint64(i))
 		h := randHistory(r, 20, 30)
